@@ -150,10 +150,10 @@ func (c c02) sessions(tier string) []c02Case {
 		}
 		{
 			// size-triggered rotation of the WAL file inside one memstore generation: the file limit is 100 x the memstore
-			// size (6.4 MB here, above the 4 MiB buffer); three keys are overwritten until the limit is crossed twice
+			// size (6.4 MB here, above the 4 MiB buffer); three keys are overwritten until the limit is crossed
 			cfg := sess.Cfg{Mem: 64 * 1024, Thresh: 10, Ratio: 0.2, Async: true}
 			var ops []sess.Op
-			for i := 0; i < 3300; i++ {
+			for i := 0; i < 1700; i++ {
 				ops = append(ops, sess.Op{Op: "put", K: crashKeys[i%3], V: fmt.Sprintf("I%d", 4000+i%7)})
 			}
 			ops = append(ops, cl)
@@ -312,9 +312,14 @@ func (c c02) acceptable(cs c02Case, s crashSituation, got map[string]string) (bo
 		return false, wants
 	}
 	all := append(append([]int{}, s.Acked...), s.Inflight...)
+	m := refMap(cs.Sess, all[:min(s.MinPrefix, len(all))])
 	for p := s.MinPrefix; p <= len(all); p++ {
-		m := refMap(cs.Sess, all[:p])
-		wants = append(wants, fmt.Sprintf("prefix%d%s", p, mapStr(m)))
+		if p > s.MinPrefix {
+			refApply(m, cs.Sess.Ops[all[p-1]])
+		}
+		if len(wants) < 12 {
+			wants = append(wants, fmt.Sprintf("prefix%d%s", p, mapStr(m)))
+		}
 		if mapsEq(m, got) {
 			return true, nil
 		}
